@@ -420,11 +420,21 @@ def evaluate(ctx, cases, cfgs, sample_rate):
 
 
 def run(ctx):
-    return evaluate(ctx, gen(ctx), ["dbg", "rel", "isa"], 0.15 if ctx.quick else 0.02)
+    corr = evaluate(ctx, gen(ctx), ["dbg", "rel", "isa"], 0.15 if ctx.quick else 0.02)
+    from harness import ldlib
+    ldlib.part(ctx, corr, ["affine"], "affine_layer")      # long double coordinates
+    return corr
 
 
 def replay(ctx):
     c = ctx.replay["case"]
+    if c and c.get("op") == "longdouble":
+        from vlib.framework import Corr as _Corr
+        from harness import ldlib
+        corr = _Corr()
+        corr.add_obl("affine_layer")
+        ldlib.part(ctx, corr, c["ops"], "affine_layer", cfgs=(c.get("cfg", "dbg"),))
+        return corr
     prec = c["prec"]
     mode = c["mode"]
     conv = (lambda w: int(frombits(prec, w))) if mode == "x" else (lambda w: frombits(prec, w))
